@@ -153,6 +153,10 @@ def explore(driver, cfg, deviations=0, max_states=None, max_seconds=None, closur
     (branches on which they fire are cut, as documented in DESIGN.md section 6)."""
     res = Result()
     t0 = PERF()
+    if not max_states and str(cfg.get('name', '')).endswith('-deep'):
+        # the deeper variants of the thorough tier are explored breadth-first up to a fixed number of states (a state cap,
+        # unlike a time cap, explores the same region on every machine); the evidence reports them as capped
+        max_states = int(os.environ.get('VERIF_DEEP_MAX_STATES', '15000'))
     if not max_seconds:
         # safety net of the quick tier: a runaway configuration is reported as capped, never left running
         max_seconds = int(os.environ.get('VERIF_HARD_CAP_S', '900'))
